@@ -331,6 +331,37 @@ def _one(R, rng, i, dtype_opt, method, subproc):
                 R.violation("convert-chunks --copy-info output differs from its source", case, {"why": why})
         except Exception as e:  # noqa: BLE001
             R.violation("convert-chunks --copy-info output unreadable", case, {"exc": f"{type(e).__name__}: {e}"[:200]})
+    # the first scale gets a SECOND chunking (legal in the format; written through the I/O layer), then the
+    # dataset is copied with convert-chunks: exit status 0 must mean every chunk of every chunking is there
+    if storage != "sharded" and enc != "jpeg" and i % 4 == 3:
+        infoM = json.loads(json.dumps(infoB))
+        cs0 = infoM["scales"][0]["chunk_sizes"][0]
+        extra = [max(1, c // 2) for c in cs0]
+        infoM["scales"][0]["chunk_sizes"].append(extra)
+        M = os.path.join(d, "M")
+        shutil.copytree(B, M)
+        with open(os.path.join(M, "info"), "w") as f:
+            json.dump(infoM, f)
+        pioM = pipeline.fresh_io(M, acc)
+        s0 = infoM["scales"][0]
+        for (x0, x1, y0, y1, z0, z1) in pipeline.chunk_grid(s0["size"], extra):
+            pioM.write_chunk(np.ascontiguousarray(scB[s0["key"]][:, z0:z1, y0:y1, x0:x1]), s0["key"],
+                             (x0, x1, y0, y1, z0, z1))
+        M2 = os.path.join(d, "M2")
+        rc, so, se = pipeline.run_script("convert_chunks", [M, M2, "--copy-info"] + common, inprocess=inproc)
+        R.count("convert-two-chunkings:" + ("rc0" if rc == 0 else "failed"))
+        if rc == 0:
+            try:
+                _, scM = decode_all(M2, acc)
+                why = same(scB, scM)
+                if why:
+                    R.violation("convert-chunks of a scale with two chunkings exited 0 but the contents differ", case,
+                                {"why": why})
+            except Exception as e:  # noqa: BLE001
+                R.violation("convert-chunks of a scale with two chunkings exited 0 but a chunk is missing or "
+                            "unreadable", case, {"exc": f"{type(e).__name__}: {e}"[:200], "chunkings": [cs0, extra]})
+        else:
+            R.violation("convert-chunks of a scale with two chunkings failed", case, {"rc": rc, "stderr": se[-300:]})
     # convert-chunks into a destination whose info declares ANOTHER compressed_segmentation block size
     if enc == "compressed_segmentation" and storage != "sharded":
         Dd = os.path.join(d, "D")
